@@ -101,6 +101,9 @@ macro_rules! write_case {
         write_case!($name, $prefix, $n, $u, $two, None, None);
     };
     ($name:ident, $prefix:expr, $n:expr, $u:literal, $two:expr, $script:expr, $fail:expr) => {
+        write_case!($name, $prefix, $n, $u, $two, $script, $fail, None);
+    };
+    ($name:ident, $prefix:expr, $n:expr, $u:literal, $two:expr, $script:expr, $fail:expr, $cbuf:expr) => {
         /// One `write` of `$n` symbolic bytes from the state carried after the (concrete)
         /// prefix `$prefix`; symbolic accept sizes, one injected error at a symbolic call.
         #[kani::proof]
@@ -108,7 +111,12 @@ macro_rules! write_case {
         fn $name() {
             const TWO_RUNS: bool = $two;
             let prefix: &[u8] = $prefix;
-            let buf: [u8; $n] = kani::any();
+            let cbuf: Option<[u8; $n]> = $cbuf;
+            let buf: [u8; $n] = match cbuf {
+                // concrete buffer (quick tier, two-run shapes): only the error kind is symbolic
+                Some(b) => b,
+                None => kani::any(),
+            };
             if $n == 3 && TWO_RUNS {
                 // shape "text, non-whitespace C0 control, text": two printable runs in one call
                 kani::assume(buf[1] < 0x20 && !matches!(buf[1], 0x09 | 0x0A | 0x0C | 0x0D));
@@ -222,6 +230,9 @@ write_case!(write_s_err0_csi, b"\x1b[", 1, 5, false, Some([ALL; 4]), Some(0));
 write_case!(write_s_short1_ground2, b"", 2, 5, false, Some([1, ALL, ALL, ALL]), Some(NEVER));
 write_case!(write_s_err1_two_runs, b"", 3, 6, true, Some([ALL; 4]), Some(1));
 write_case!(write_s_short0_second_run, b"", 3, 6, true, Some([ALL, 0, ALL, ALL]), Some(NEVER));
+// two printable runs "a", BEL, "b" with a concrete buffer: the second inner call fails / is short
+write_case!(write_c_err1_two_runs, b"", 3, 6, true, Some([ALL; 4]), Some(1), Some([b'a', 0x07, b'b']));
+write_case!(write_c_short0_second_run, b"", 3, 6, true, Some([ALL, 0, ALL, ALL]), Some(NEVER), Some([b'a', 0x07, b'b']));
 write_case!(write_1_ground, b"", 1, 5);
 write_case!(write_1_escape, b"\x1b", 1, 5);
 write_case!(write_1_csi, b"\x1b[", 1, 5);
